@@ -238,6 +238,11 @@ def generate(ctx):
     rng = ctx.rng
     yield from huff_tables(ctx)
     yield from huff_streams(ctx)
+    # well-formed OAB files whose LZX chunk boundary falls on every residue of the input buffer (reads at the buffer's last byte)
+    for case in S.oab_odd_uncompressed_cases(rng, 16 if ctx.tier == "quick" else 300):
+        for b in (16, 4096):
+            yield [f"fill {rng.choice(FILLS)}"] + S.file_lines(case) + ["new oab", f"param i0 DECOMPBUF {b}", "decompress i0 full.oab out0", "destroy i0"], \
+                  dict(family="oab.odd-uncompressed", plan=case["meta"]["directed"], buf=b)
     for lines, meta in directed(rng):
         yield lines, meta
     for lines, meta in chm_huge(rng):
